@@ -19,6 +19,11 @@ def implies(a, b):
 def run_case(rep, label, fn, tier="P", allowed_exceptions=(), max_paths=2000, min_returns=1):
     """Explore fn over all feasible paths, register the aggregated obligations.
     Returns (refuted, limits) where refuted = list of (obligation name, ctx, result-dict)."""
+    # Once a number of obligations has been refuted the verdict is settled; further symbolic cases would only slow the
+    # run down (counter-model search is much slower than discharging).  The skipped cases are listed in the evidence.
+    if getattr(rep, "_refuted_total", 0) >= getattr(rep, "max_refuted_cases", 12):
+        rep.fallbacks.append({"case": label, "reason": "skipped: enough obligations already refuted in this run"})
+        return [], ["skipped"]
     try:
         paths = explore(fn, max_paths=max_paths)
     except sym.EngineLimit as e:
@@ -54,7 +59,9 @@ def run_case(rep, label, fn, tier="P", allowed_exceptions=(), max_paths=2000, mi
                 a["und"] += 1
     if limits:
         rep.fallbacks.append({"case": label, "reason": limits[:3]})
-        rep.note(f"proof not re-established for {label}: {limits[0][:300]}")
+        rep._refuted_total = getattr(rep, "_refuted_total", 0) + 1  # counts towards the cap: the sweep decides from here on
+        if rep._refuted_total <= 12:
+            rep.note(f"proof not re-established for {label}: {limits[0][:300]}")
         return [], limits
     if nret < min_returns:
         raise Exception(f"{label}: contract vacuous (no path reached the postcondition)")
@@ -75,4 +82,6 @@ def run_case(rep, label, fn, tier="P", allowed_exceptions=(), max_paths=2000, mi
         rep.obligation(f"{label}: {name} [{a['n']} path(s)]", res, tier, "+".join(sorted(a["backend"])), a["s"])
         if a["bad"]:
             refuted.append((f"{label}: {name}", a["bad"][0][0], a["bad"][0][1]))
+    if refuted:
+        rep._refuted_total = getattr(rep, "_refuted_total", 0) + 1
     return refuted, []
